@@ -78,8 +78,51 @@ _STATS = re.compile(r'(\d[\d,]*) states generated, (\d[\d,]*) distinct states fo
 _SIM = re.compile(r'The number of states generated: (\d[\d,]*)')
 
 
+def corrupt_trace(module, path):
+    """selftest only (VERIF_CORRUPT_TRACE=<trace module>): falsify ONE recorded observation of the trace before it is validated; the check
+    that owns the trace must then report a violation - this demonstrates that the specification is bound to what was recorded"""
+    ev = [json.loads(l) for l in open(path) if l.strip()]
+    done = False
+    for i, e in enumerate(ev):
+        if module == 'Trace_Link' and e.get('e') == 'Pkt' and 'errs' in e:
+            e['errs'].append({'off': e['off'], 'code': '10' if not any(x['code'] == '10' for x in e['errs']) else '11'}); done = True
+        elif module == 'Trace_Stave' and e.get('e') == 'Pkt' and 'errs' in e:
+            e['errs'].append({'off': e['off'] + 74, 'code': '74'}); done = True          # an invented frame error
+        elif module == 'Trace_Order' and e.get('e') == 'End':
+            e['shown'] = e['shown'][::-1] if len(e['shown']) > 1 and e['shown'][0] != e['shown'][-1] else e['shown'] + [{'off': 0, 'code': '10'}]; done = True
+        elif module == 'Trace_Scanner' and e.get('rows'):
+            e['rows'][0]['off'] += 64; done = True
+        elif module == 'Trace_Reader' and e.get('e') == 'rdh':
+            e['a'] += 64; done = True
+        elif module == 'Trace_Pipe2' and e.get('t') in ('A', 'W') and e.get('e') in ('recv', 'dispatch'):
+            del ev[i]; done = True
+        elif module == 'Trace_Stats' and 'stats' in e:
+            e['stats']['rdhs_seen'] += 1; done = True
+        elif module == 'Trace_Collector' and e.get('kind') == 'run':
+            e['rc'] = 99; done = True
+        elif module == 'Trace_Views' and e.get('rows'):
+            e['rows'][0]['off'] += 1; done = True
+        elif module == 'Trace_Msg' and e.get('e') == 'Msg':
+            if e.get('kind') == 'word' and e.get('quoted'):
+                e['quoted'][0] ^= 1
+            else:
+                e['off'] += 1
+            done = True
+        elif module == 'Trace_Custom' and 'codes' in e:
+            e['codes'] = e['codes'] + ['9001'] if '9001' not in e['codes'] else [c for c in e['codes'] if c != '9001']; done = True
+        if done:
+            break
+    with open(path, 'w') as f:
+        for e in ev:
+            f.write(json.dumps(e) + '\n')
+    return done
+
+
 def tlc(module, cfg, wd, workers=1, simulate=None, tlc_seed=None, env=None, timeout=600, coverage=False, dfs=False):
     """run TLC in SPEC dir; returns dict(rc, out, generated, distinct)"""
+    if os.environ.get('VERIF_CORRUPT_TRACE') == module and env and env.get('TRACE') and not os.environ.get('_VERIF_CORRUPTED'):
+        if corrupt_trace(module, env['TRACE']):
+            os.environ['_VERIF_CORRUPTED'] = '1'          # one observation per run
     meta = f'{wd}/tlc-{module}-{int(time.time()*1000)%100000}'
     cmd = ['timeout', str(timeout), 'tlc', '-workers', str(workers), '-metadir', meta, '-cleanup', '-noGenerateSpecTE', '-config', cfg]
     if simulate:
